@@ -57,7 +57,7 @@ CLAIMS = {
   ref="DESIGN.md §5 C01"),
  "C03": dict(
   text="Bounded symbolic execution of the decode side (Pipeline/Steps/CommandStep/GroupStep/Plugins/Matrix/MatrixSetup/MatrixAdjustmentWith/Cache.UnmarshalOrdered, the reflective unmarshaler) and the emit side (inlineFriendlyMarshalJSON, isEmptyValue and every MarshalJSON/MarshalYAML method reached) on generic document trees: every combination of key/id/identifier, label/name, command/commands, each plugins / matrix / cache shorthand, env scalars, all step kinds, groups, pipeline-level extras, unknown extra keys with nested values of every scalar kind. The JSON data model of the marshalled pipeline must be the documented normal form with every other key exactly once and unchanged.",
-  note="Partial: the JSON leg on the data model only. Not claimed: the YAML emitter (yaml.v3 interprets the tags itself), byte-level rendering, input syntax variants (gone once nodes exist; resolver is C07), extra keys inside `signature`. One listed known finding (both `command` and `commands`). Bounds: one step per document, <= 1 (quick) / 2 (thorough) extra keys, 1-byte symbolic strings.",
+  note="Partial: on the data model - JSON as an abstract tree, YAML as the node tree of a model of yaml.v3's encoder dispatch (a second configuration checks that the YAML output carries the same data). Not claimed: byte-level rendering and scalar spelling, input syntax variants (gone once nodes exist; resolver is C07), extra keys inside `signature`. One listed known finding (both `command` and `commands`). Bounds: one step per document, <= 1 (quick) / 2 (thorough) extra keys, 1-byte symbolic strings.",
   ref="DESIGN.md §5 C03"),
  "C06": dict(
   text="Bounded symbolic execution of signature.SignSteps, Sign, configureOptions, SignedFields, ValuesForFields, Verify, requireKeys, canonicalPayload over symbolic step lists (command, wait, input, trigger, group, unknown; groups nested), pipeline env / step env overlaps and all four key kinds: refusal iff an unknown step occurs anywhere; otherwise every command step at every depth carries a signature naming the key's algorithm, its signed-field list is exactly the sorted expected list, it verifies (env extended by an unrelated variable), and nothing but Signature fields is written (step scalars, step env, plugins, caller's env map).",
@@ -65,7 +65,7 @@ CLAIMS = {
   ref="DESIGN.md §5 C06"),
  "C13": dict(
   text="Bounded symbolic execution of ordered.Unmarshal into Pipeline (Pipeline/Steps/GroupStep.UnmarshalOrdered, unmarshalStep, stepFromMap, NewScalarStep, the reflective unmarshaler, warning.*) on decoded documents whose step sequence mixes valid and invalid scalars, well-formed maps of every kind, ill-typed and unknown-type maps, ints, nulls and (nested) groups, for all four top-level shapes: no panic; a usable result has a non-nil list with exactly one non-nil step per entry in order, recursively in groups; fallbacks hold the original entry verbatim; the warning tree has exactly one leaf per fallback; the result marshals to JSON.",
-  note="Partial: the structural half only. `For any byte sequence ... bounded time ... never panics` through yaml.v3's scanner/parser is not encodable and not claimed; YAML marshalling of the result neither. Bounds: <= 2 (quick) / 3 (thorough) entries without nesting, <= 1 / 2 entries with groups of <= 2 children.",
+  note="Partial: the structural half only. `For any byte sequence ... bounded time ... never panics` through yaml.v3's scanner/parser is not encodable and not claimed. YAML marshalling of the result is checked on the node data model (incl. yaml.v3's panic on an inline key that conflicts with a struct field). Bounds: <= 2 (quick) / 3 (thorough) entries without nesting, <= 1 / 2 entries with groups of <= 2 children.",
   ref="DESIGN.md §5 C13"),
  "C14": dict(
   text="Bounded symbolic execution of Sign's payload construction (SignedFields, env:: namespacing, canonicalPayload, EmptyToNil*, Plugin.MarshalJSON/FullSource, Matrix.MarshalJSON) observed where the property observes it - the payload handed to the Logger under WithDebugSigning(true) - for pairs of worlds with symbolic strings: the payloads must be equal for re-orderings (every Go map iteration order is a fork choice), nil vs empty env/plugins/matrix/config and short vs canonical plugin source, and must differ for 18 kinds of single-field and boundary-shifting differences (incl. matrices mixing the anonymous and named dimensions, and an empty-valued variable versus no variable); a second configuration observes the payload Verify rebuilds from the presented world.",
@@ -77,11 +77,11 @@ CLAIMS = {
   ref="DESIGN.md §5 C16"),
  "C02": dict(
   text="Composition decided by bounded symbolic execution: SignSteps on a symbolic command step from an option lattice (command incl. multi-line, env nil/empty/populated, plugins nil/empty/short/canonical source with every scalar kind in configs, matrix nil/empty/simple/named with adjustments/only adjustments, pipeline env with a shadowed variable, all four key kinds) together with wait and group steps, then json.Marshal, re-parse both ways (CommandStep.UnmarshalJSON and the whole-pipeline path, JSON read as YAML), then Verify with the pipeline env plus an unrelated variable: the signature record is unchanged and verifies, also for the step inside the group.",
-  note="Partial: the JSON leg on the JSON data model under the ideal signature scheme. The YAML leg, real bytes (emitters/scanners of yaml.v3 and encoding/json) and real signatures are not claimed. Go map orders fixed in this harness (C14 varies them). Found defect 7 (setup: null) before its repair.",
+  note="Partial: both legs on the data model (JSON: abstract JSON tree; YAML: node tree produced by a model of yaml.v3's encoder dispatch - yaml tags, omitempty/IsZero, inline maps, MarshalYAML methods) under the ideal signature scheme. Not claimed: the spelling and re-typing of scalars in real bytes (emitters/scanners of yaml.v3 and encoding/json) and real signatures. Go map orders fixed in these harnesses (C14 varies them). Found the setup: null (JSON) and setup: {} (YAML) defects before their repair; counterexamples were confirmed natively with real yaml.v3 and real keys.",
   ref="DESIGN.md §5 C02"),
  "C09": dict(
   text="Bounded symbolic execution of the JSON leg on the JSON data model: for a parsed command step with every optional part nil / empty / populated (key, label, command, env, signature, extras; plugins with every config shape; every Matrix and Cache marshal shape), json.Marshal (abstract, real MarshalJSON methods executed) -> CommandStep.UnmarshalJSON (yaml.Unmarshal modelled, then the real DecodeYAML and UnmarshalOrdered code) must succeed, give the same fields up to nil-vs-empty and canonical plugin sources, and marshal again to the same data; the same for a small pipeline through the whole-document path.",
-  note="Partial: the YAML leg, scalar re-typing by the YAML scanner, and byte-identical repeated marshalling are properties of yaml.v3 / encoding/json internals and are not claimed. One listed known finding (alias kept next to an empty primary key). Go map orders fixed (marshalled maps are compared as sets).",
+  note="Partial: both legs on the data model - the YAML leg as a node tree produced by a model of yaml.v3's encoder dispatch (validated by native replay of sampled paths through the real library), compared through the JSON data model with nil and empty containers identified. Not claimed: scalar re-typing by the YAML scanner/emitter in real bytes and byte-identical repeated marshalling. One listed known finding (alias kept next to an empty primary key). Go map orders fixed (marshalled maps are compared as sets).",
   ref="DESIGN.md §5 C09"),
 }
 
